@@ -534,6 +534,50 @@ def r5_register_frames(ctx, rule="C05.R5"):
     ctx.require(rule, 2)
 
 
+def _error_branch_region(interp):
+    """blocks of `interpret` that run only after interpret_one returned Err"""
+    body = interp.body
+    pv = mir.Prov(body)
+    call_b = [b for b, t in body.calls() if mir.callee_path(t).split("::")[-1] == "interpret_one"]
+    if len(call_b) != 1:
+        raise CheckError("interpret: %d calls of interpret_one" % len(call_b))
+    for b in range(body.nblocks):
+        t = body.term(b)
+        if t["k"] != "switch" or body.is_cleanup(b):
+            continue
+        p = mir.op_place(t["o"])
+        if p is None:
+            continue
+        o = pv.of_place(p)
+        if o[0] == "discr":
+            base = mir.strip_refs(o[1])
+            if base[0] == "call" and base[3] == call_b[0]:
+                hit = [tgt for val, tgt in t["ts"] if val == 1]
+                tgt = hit[0] if hit else t["else"]
+                return {x for x in range(body.nblocks) if body.dominates(tgt, x) and not body.is_cleanup(x)}
+    raise CheckError("interpret: the result of interpret_one is not matched")
+
+
+_SHRINK = ("truncate", "clear", "pop", "pop_back", "pop_front", "drain", "remove", "swap_remove", "split_off",
+           "retain", "take")
+
+
+def _shrinks_field(prog, fn, region, field, depth=2):
+    pv = mir.Prov(fn.body)
+    for b, t in mir.region_calls(fn.body, region):
+        if t["args"] and mir.callee_path(t).split("::")[-1] in _SHRINK:
+            o = mir.strip_refs(pv.of_operand(t["args"][0]))
+            if o[0] == "field" and o[2] == field:
+                return "%s:%s %s" % (fn.name, t.get("ln"), mir.callee_path(t).split("::")[-1])
+        g = prog.fns.get(t.get("res") or mir.callee_of(t))
+        if depth and g is not None and g.id != fn.id and g.file == fn.file and g.body is not None:
+            whole = [b2 for b2 in range(g.body.nblocks) if not g.body.is_cleanup(b2)]
+            r = _shrinks_field(prog, g, whole, field, depth - 1)
+            if r:
+                return r
+    return None
+
+
 def r6_error_unwinding(ctx, rule="C05.R6"):
     """The error path undoes what the failing statement had opened on the context stack:
     (a) both handler edges drop argument-collecting states (sibling agreement: the Address edge
@@ -583,6 +627,19 @@ def r6_error_unwinding(ctx, rule="C05.R6"):
                    "the drop is iterated until a normal state is on top",
                    "%s drops at most one argument-collecting state (the pop is not in a loop): an error "
                    "inside nested argument evaluation leaves a state behind" % f.name)
+    # The statement that fails sits inside constructs that stay open when the program goes on after the
+    # handler (RESUME, RESUME NEXT, ON ERROR RESUME NEXT): what those constructs parked on the value stack
+    # (SELECT CASE: the selected value) and on the register stack (FOR: limit and step) is still needed by
+    # their closing code, so the error branch must not shrink either stack
+    err_region = _error_branch_region(interp)
+    for field in ("value_stack", "register_stack"):
+        hit = _shrinks_field(prog, interp, err_region, field)
+        ctx.decide(not hit, rule, "%s:error-branch-keeps:%s" % (rule, field), interp.loc,
+                   "the error branch does not shrink %s" % field,
+                   "the error branch of the fetch-execute loop shrinks %s (%s): a construct that is still open when "
+                   "the program resumes (SELECT CASE keeps the selected value there, FOR its limit and step) pops "
+                   "an entry that is gone - stack underflow at END SELECT / NEXT after a handled error"
+                   % (field, hit))
     one = ctx.anchor_method("Interpreter", "interpret_one")
     sw1, regions = _arm_regions(prog, one, "::Instruction")
     for v in ("BuiltInSub", "BuiltInFunction"):
@@ -632,7 +689,7 @@ def r6_error_unwinding(ctx, rule="C05.R6"):
                    "skips (%s): the state PushStack made stays on the context stack and, after RESUME NEXT, the caller "
                    "runs on the failed built-in's empty variables" % (v, sorted(x.split("::")[-1] for x in missing)))
     ctx.analysed_units(rule, shrinkers=sorted(x.split("::")[-1] for x in direct))
-    ctx.require(rule, 7)
+    ctx.require(rule, 9)
 
 
 def r7_transfer_committed_last(ctx, rule="C05.R7"):
